@@ -47,6 +47,38 @@ Theorem C23_announce_holds : forall fuel g backend ms,
 Proof. exact announce_holds. Qed.
 Print Assumptions C23_announce_holds.
 
+(* several AvailableCommands packets on one backend session (backends resend their tree; the
+   player's permissions and the registered commands change in between): the merged tree of the
+   k-th packet is a function of the graph and requirement outcomes AT THAT MOMENT and of that
+   packet's backend root only - whatever came before - and therefore satisfies the property
+   predicate for the current outcomes *)
+Theorem C23_merge_uses_current_outcomes : forall fuel pkts pkts' k g backend,
+  nth_error pkts k = Some (g, backend) -> nth_error pkts' k = Some (g, backend) ->
+  nth_error (announce_session fuel pkts) k = Some (announce fuel g backend) /\
+  nth_error (announce_session fuel pkts') k = nth_error (announce_session fuel pkts) k /\
+  (wf_root g -> forall ms, announce fuel g backend = Some ms -> holds_C23 g backend ms = true).
+Proof.
+  intros fuel pkts pkts' k g backend H H'. rewrite (session_nth fuel pkts k g backend H), (session_nth fuel pkts' k g backend H').
+  split; [reflexivity|]. split; [reflexivity|]. intros Hwf ms Hms. exact (announce_holds fuel g backend ms Hwf Hms).
+Qed.
+Print Assumptions C23_merge_uses_current_outcomes.
+
+(* what this excludes: a handler that keeps the filtered view of the first packet of the session.
+   Witness: the player loses command 1 between two packets - the cached view still shows it
+   (with its usable child), i.e. proxy nodes the player does not pass the requirement for *)
+Theorem C23_cached_view_refuted : exists pkts g backend ms,
+  nth_error pkts 1 = Some (g, backend) /\
+  nth_error (announce_cached_session 4 pkts) 1 = Some (Some ms) /\
+  holds_C23 g backend ms = false /\ forallb (all_usable g) (proxy_part ms) = false /\
+  (exists ms', nth_error (announce_session 4 pkts) 1 = Some (Some ms') /\ holds_C23 g backend ms' = true).
+Proof.
+  exists [(g_ex, [mkB 9 99]); (g_ex_revoked, [mkB 9 99])], g_ex_revoked, [mkB 9 99].
+  destruct cached_view_refuted as [H1 [ms [H2 [H3 H4]]]]. exists ms.
+  split; [reflexivity|]. split; [exact H2|]. split; [exact H3|]. split; [exact H4|].
+  eexists. split; [exact H1|]. vm_compute. reflexivity.
+Qed.
+Print Assumptions C23_cached_view_refuted.
+
 (* acyclicity premise: if children and redirect edges strictly decrease some rank, the recursion ends
    within rank+1 frames, and more fuel does not change the result *)
 Theorem C23_terminates_when_acyclic : forall g rank, ranked g rank ->
